@@ -561,9 +561,10 @@ func evalFunction(ctx context.Context, scope *ReferenceScope, expr parser.Functi
 		}
 		if udfn.IsAggregate {
 			aggrdcl := parser.AggregateFunction{
-				BaseExpr: expr.BaseExpr,
-				Name:     expr.Name,
-				Args:     expr.Args,
+				BaseExpr:   expr.BaseExpr,
+				Name:       expr.Name,
+				NameQuoted: expr.NameQuoted,
+				Args:       expr.Args,
 			}
 			return evalAggregateFunction(ctx, scope, aggrdcl)
 		}
